@@ -357,6 +357,13 @@ def monitors(scn, trace):
                     bad("C04", "tracked-jobs",
                         "op %d: check_jobs queried steps %s but the live jobs belong to %s"
                         % (k, sorted(queried), sorted(set(live.values()))))
+                elif len(ev) > 2 and set(ev[2]) != set(live):
+                    bad("C04", "tracked-jobs",
+                        "op %d: check_jobs asked about jobs %s but the live jobs are %s: %s"
+                        % (k, sorted(ev[2]), sorted(live),
+                           "; ".join("step %d has live job %d, Maestro follows job(s) %s" % (
+                               s_, j_, [q for q in ev[2] if q not in live])
+                               for j_, s_ in sorted(live.items()) if j_ not in ev[2])))
                 for i, st in reported.items():
                     if st in TERMINAL:
                         j = job_of.get(i)
@@ -448,6 +455,11 @@ def monitors(scn, trace):
                     bad("C07", "cancel-args",
                         "op %d: cancel_jobs got steps %s, live jobs belong to %s"
                         % (k, sorted(ids), sorted(set(live.values()))))
+                elif len(ev) > 2 and set(ev[2]) != set(live):
+                    bad("C07", "cancel-args",
+                        "op %d: cancel_jobs got jobs %s, the live jobs are %s" % (k, sorted(ev[2]), sorted(live)))
+                    bad("C04", "tracked-jobs",
+                        "op %d: cancel_jobs got jobs %s, the live jobs are %s" % (k, sorted(ev[2]), sorted(live)))
         if op["op"] == "cancel":
             if o.ret != "ok":
                 bad("C07", "cancel-never-raises",
